@@ -1,6 +1,7 @@
 """C15 — GeoNetworking router is safe under concurrent origination, reception and timers.
 
-Theorems: lean/Props/C15.lean (every schedule of the block model lean/FlexModel/Conc/RouterConc.lean).
+Theorems: lean/Props/C15.lean (every schedule of the block model lean/FlexModel/Conc/RouterConc.lean; LocTE life cycle and
+duplicate detection: RouterLocTLemmas.lean; section = atomic block: RouterReduction.lean + Props/ConcReduction.lean).
 Tie: (i) lean/Generated/Locks.lean regenerated from the source by harness/gen_locks.py – the block decomposition and
 the lock map the model assumes are `decide`d against it; (ii) schedule-level correspondence: 2-4 REAL threads run
 1-3 router operations each under the deterministic scheduler harness/dsched.py (pre-emption at every relevant
@@ -29,20 +30,26 @@ from flexstack.geonet.position_vector import LongPositionVector, TST
 from flexstack.geonet.service_access_point import (
     GNDataRequest, PacketTransportType, HeaderType, HeaderSubType, GeoBroadcastHST, Area, CommonNH)
 
-MODULES = ["Props.C15"]
+MODULES = ["Props.C15", "Props.ConcReduction"] + __import__("gen_extract").bridge_modules("C15")   # + bridge lemmas of the functions py2lean could extract
 DRIVERS = ["ConcRouter"]
 TRUSTED = [
     "CPython: a single dict/set/deque method call and a single attribute load/store are atomic (the scheduler "
     "pre-empts between bytecodes, never inside one); threading.Lock/RLock/Timer are replaced by scheduler-aware "
     "equivalents (harness/dsched.py) with the same blocking/cancel semantics",
-    "block model: a `with lock:` section is one atomic block; justified by the generated lock map (every access to "
-    "the attributes written in a section is under the same lock) and validated by the bytecode-level exploration",
+    "block model: a `with lock:` section is one atomic block - for the accesses to lock-guarded attributes this is DERIVED "
+    "(Props.C15.sections_atomic: mechanised reduction theorem instantiated with access-level programs generated from "
+    "Generated/Locks.lean); assumed for the rest (ego PV single-store section with unlocked readers, fields of LocTE objects "
+    "reached through a local variable, RLock re-entry) and validated by the bytecode-level exploration; the link between "
+    "the hand-written block functions of RouterConc and the access lists is by construction, not a theorem",
     "harness/gen_locks.py (ast pass producing Generated/Locks.lean), harness/dsched.py",
 ]
 ASSUMPTIONS = [
     "sequence numbers: pairwise distinct among any 65535 consecutive allocations (the counter is modulo 2^16-1)",
     "CBF: per key (source address, SN); a send is charged to the key, not to the individual Timer object",
     "timers may fire at any point after start() (virtual time); the retransmit chain is explored to depth 2",
+    "duplicate detection: per LocTE life (between two purges of the source's entry) and per DPL window "
+    "(itsGnDPLLength acceptances); which PVs are older than itsGnLifetimeLocTE at a refresh_table is an input of the "
+    "model's refresh block (time is not modelled; the scenarios run at a frozen clock: nothing expires)",
     "fix C15-ls-placeholder-purge applied (LocT placeholder entries with ls_pending are exempt from refresh_table); "
     "without it a received frame purges the placeholder and the next request overwrites the LS buffer "
     "(theorem ls_exactly_once_witness, corpus/C15/ls_purge.json)",
@@ -150,17 +157,38 @@ class _NoTimer:
 # ------------------------------------------------------------------------------------------------ real runs
 
 
+def all_threads(sc):
+    """the threads of the scenario, preceded by the sequential prefix `pre` (if any) as a pseudo thread"""
+    return ([sc["pre"]] if sc.get("pre") else []) + sc["threads"]
+
+
 def scenario_dests(sc):
-    return sorted({op[3] for th in sc["threads"] for op in th if op[0] == "guc"} |
-                  {op[2] for th in sc["threads"] for op in th if op[0] == "lsR"})
+    return sorted({op[3] for th in all_threads(sc) for op in th if op[0] == "guc"} |
+                  {op[2] for th in all_threads(sc) for op in th if op[0] == "lsR"})
 
 
 def scenario_keys(sc):
-    return sorted({op[2] for th in sc["threads"] for op in th if op[0] in ("cbfA", "gbcRx")})
+    return sorted({op[2] for th in all_threads(sc) for op in th if op[0] in ("cbfA", "gbcRx")})
+
+
+GBC_SRC = 50      # station that originated every GBC frame of Frames.gbc_frame
+
+
+def scenario_rx(sc):
+    """(source station, SN) of the GBC frames delivered by gn_data_indicate"""
+    return sorted({(GBC_SRC, op[2]) for th in all_threads(sc) for op in th if op[0] == "gbcRx"})
+
+
+def scenario_srcs(sc):
+    """stations whose frames are received (their LocTE is part of the outcome)"""
+    out = {op[2] for th in all_threads(sc) for op in th if op[0] == "shbRx"}
+    if sc.get("warm") or any(op[0] == "gbcRx" for th in all_threads(sc) for op in th):
+        out.add(GBC_SRC)
+    return sorted(out)
 
 
 def scenario_reqs(sc):
-    return sorted({op[2] for th in sc["threads"] for op in th if op[0] == "guc"})
+    return sorted({op[2] for th in all_threads(sc) for op in th if op[0] == "guc"})
 
 
 class Run:
@@ -172,7 +200,7 @@ class Run:
         old_timer = router_mod.Timer
         with rs.VClock(T0):
             # frames of other stations are built before the scheduler starts (never inside a managed thread)
-            for th in sc["threads"]:
+            for th in all_threads(sc):
                 for op in th:
                     if op[0] in ("cbfA", "gbcRx"):
                         frames.gbc_frame(op[2])
@@ -203,14 +231,31 @@ class Run:
                     setattr(r, sc["nolock"], dsched.NoLock())
                 s = dsched.DSched(policy, line_files=FILES, opcode_codes=opcode_codes(), max_steps=max_steps)
                 self.s = s
+                self.lock_held = []
+                orig_dup = loct_mod.LocationTableEntry.check_duplicate_sn
+                if sc.get("probe_lock"):        # variant probe: is loc_t_lock held while the entry is updated?
+                    run = self
+
+                    def probed(entry, sn):
+                        run.lock_held.append(r.location_table.loc_t_lock.owner is not None)
+                        return orig_dup(entry, sn)
+                    loct_mod.LocationTableEntry.check_duplicate_sn = probed
                 depth = sc.get("timer_depth", 2)
                 s.timer_filter = lambda t: t.creator.count("tm") < depth
                 self._wrap()
+                if "sn0" in sc:                 # the sequence counter starts near its wrap-around
+                    r.sequence_number = sc["sn0"]
                 reply_iter = {d: iter(frames.reply_frames(d, 3)) for d in scenario_dests(sc)}
+                if sc.get("pre"):               # operations executed sequentially before the threads start (their timers never fire)
+                    with rs.quiet():
+                        self._thread_body(sc["pre"], reply_iter)()
                 for ti, ops in enumerate(sc["threads"]):
                     s.spawn(self._thread_body(ops, reply_iter), name=f"T{ti}")
-                with rs.quiet():
-                    s.run(timeout=30.0)
+                try:
+                    with rs.quiet():
+                        s.run(timeout=30.0)
+                finally:
+                    loct_mod.LocationTableEntry.check_duplicate_sn = orig_dup
             router_mod.Timer = old_timer
         self.steps = s.steps
         self.choices = [c[0] for c in s.steps]
@@ -234,6 +279,15 @@ class Run:
             s.log("cbf_ret", ext.sn, bool(res))
             return res
         r.gn_area_cbf_forwarding = cbf
+        if hasattr(r, "_cbf_discard"):
+            orig_discard = r._cbf_discard
+
+            def discard(key):
+                res = orig_discard(key)
+                if res:
+                    s.log("cbf_discarded", key[1])
+                return res
+            r._cbf_discard = discard
         orig_ls = r.gn_ls_request
 
         def ls_request(addr, req=None):
@@ -247,6 +301,19 @@ class Run:
             s.log("send", bytes(pkt))
             orig_send(pkt)
         self.ll.send = send
+        lt = r.location_table
+        orig_new_gbc = lt.new_gbc_packet
+
+        def new_gbc(ext, pkt):
+            key = (ext.so_pv.gn_addr.mid.mid[-1], ext.sn)
+            try:
+                res = orig_new_gbc(ext, pkt)
+            except loct_mod.DuplicatedPacketException:
+                s.log("dpl_dup", *key)
+                raise
+            s.log("dpl_pass", *key)
+            return res
+        lt.new_gbc_packet = new_gbc
         orig_rt = r._ls_retransmit
 
         def rt(addr):
@@ -326,7 +393,7 @@ class Run:
 
     def outcome(self):
         sc, r, s = self.sc, self.r, self.s
-        self.pv_ids = [0] + [op[1] for th in sc["threads"] for op in th if op[0] == "ego"]
+        self.pv_ids = [0] + [op[1] for th in all_threads(sc) for op in th if op[0] == "ego"]
         self.pkts = [self.parse(e[1]) for e in s.events if e[0] == "send"]
         errs = [t for t in s.threads if t.exc is not None]
         keys = sorted(k[1] for k in r._cbf_buffer)
@@ -342,8 +409,18 @@ class Run:
         buffered = {q.data[0] for v in r._ls_packet_buffers.values() for q in v}
         gone = [q for q in scenario_reqs(sc) if q not in sent_reqs and q not in buffered]
         pk = ",".join(f"{k}:{ref}:{sn}:{'X' if pv is None else pv}" for (k, ref, sn, pv) in self.pkts)
+        # duplicate detection: how often each received (source, SN) passed; final LocTE of each frame source
+        passes = {}
+        for e in s.events:
+            if e[0] == "dpl_pass":
+                passes[(e[1], e[2])] = passes.get((e[1], e[2]), 0) + 1
+        ps = ",".join(f"{a}:{k}:{passes.get((a, k), 0)}" for (a, k) in scenario_rx(sc))
+        tb = []
+        for a in scenario_srcs(sc):
+            e = r.location_table.loc_t.get(rs.gn_addr(a))
+            tb.append(f"{a}:{0 if e is None else (2 if e.position_vector is loct_mod._NO_POSITION_VECTOR else 1)}")
         return (f"S={pk}_E={len(errs)}_C={','.join(map(str, keys))}_L={';'.join(ls)}_D={','.join(map(str, gone))}"
-                f"_N={','.join(map(str, sorted(self.sns)))}")
+                f"_N={','.join(map(str, sorted(self.sns)))}_P={ps}_T={','.join(tb)}")
 
     def judge(self):
         """the property text on the recorded run; returns a list of violation strings"""
@@ -362,7 +439,7 @@ class Run:
         if len(set(pkt_sns)) != len(pkt_sns):
             bad.append(f"two originated packets carry the same sequence number: {sorted(pkt_sns)}")
         # CBF: at most once, never after a completed cancellation (per key, in event order)
-        enter, cancelled, sent = {}, {}, {}
+        enter, cancelled, discarded, sent = {}, {}, {}, {}
         ego_seen = {0}
         replied = set()
         buffered = {}
@@ -373,6 +450,8 @@ class Run:
                 enter[e[1]] = enter.get(e[1], 0) + 1
             elif e[0] == "cbf_ret" and not e[2]:
                 cancelled[e[1]] = cancelled.get(e[1], 0) + 1
+            elif e[0] == "cbf_discarded":
+                discarded[e[1]] = discarded.get(e[1], 0) + 1
             elif e[0] == "ego_enter":
                 ego_seen.add(e[1])
             elif e[0] == "lsR_enter":
@@ -385,9 +464,13 @@ class Run:
                 k, ref, sn, pv = self.parse(e[1])
                 if k == 4:
                     sent[ref] = sent.get(ref, 0) + 1
-                    if sent[ref] > enter.get(ref, 0) - cancelled.get(ref, 0):
-                        bad.append(f"CBF packet {ref} transmitted {sent[ref]}x with {enter.get(ref, 0)} insertions and "
-                                   f"{cancelled.get(ref, 0)} completed cancellations")
+                    # a forwarder call either inserts a copy or - completed cancellation - removes one without inserting:
+                    # copies inserted so far <= calls - cancels, each cancel / discard took one of them away for good
+                    avail = enter.get(ref, 0) - 2 * cancelled.get(ref, 0) - discarded.get(ref, 0)
+                    if sent[ref] > avail:
+                        bad.append(f"CBF packet {ref} transmitted {sent[ref]}x with {enter.get(ref, 0)} forwarder calls of which "
+                                   f"{cancelled.get(ref, 0)} cancelled a buffered copy and {discarded.get(ref, 0)} duplicate discards "
+                                   f"(completed before this transmission): sent after its cancellation / more than once")
                 else:
                     if pv is None or pv not in ego_seen:
                         bad.append(f"packet kind {k} ref {ref} carries a position vector that was never the ego position")
@@ -399,14 +482,18 @@ class Run:
                         bad.append(f"buffered unicast request {ref} sent before any reply from {buffered[ref]}")
         # a GBC (source, SN) delivered by gn_data_indicate several times must pass duplicate detection once
         n_rx = {}
-        for th in sc["threads"]:
+        for th in all_threads(sc):
             for op in th:
                 if op[0] == "gbcRx":
                     n_rx[op[2]] = n_rx.get(op[2], 0) + 1
-        direct = {op[2] for th in sc["threads"] for op in th if op[0] == "cbfA"}
+        # (frozen clock: the source's LocTE cannot expire during the run; fewer receptions than the DPL window)
+        n_pass = {}
+        for e in s.events:
+            if e[0] == "dpl_pass":
+                n_pass[e[2]] = n_pass.get(e[2], 0) + 1
         for k, n in n_rx.items():
-            if k not in direct and enter.get(k, 0) > 1:
-                bad.append(f"DPL-RACE: GBC {k} received {n}x passed duplicate detection {enter[k]}x (buffered/forwarded twice)")
+            if n_pass.get(k, 0) > 1:
+                bad.append(f"DPL-RACE: GBC {k} received {n}x passed duplicate detection {n_pass[k]}x (buffered/forwarded twice)")
         # buffered requests: still buffered, sent once, or dropped by a give-up (needs mr+1 timer expiries)
         still = {q.data[0] for v in r._ls_packet_buffers.values() for q in v}
         mr = sc.get("mr", 1)
@@ -417,6 +504,13 @@ class Run:
             if q not in still and n == 0 and n_rt.get(d, 0) < mr + 1:
                 bad.append(f"buffered request {q} lost: neither sent nor buffered, and no give-up was possible "
                            f"({n_rt.get(d, 0)} retransmit expiries, {mr + 1} needed)")
+        # a request may stay buffered only while a lookup for its destination is in progress (retransmit counter present):
+        # otherwise no reply is awaited and no retry will ever drop it - neither "sent after the reply" nor "dropped after
+        # the final retry" can happen any more
+        for a, v in r._ls_packet_buffers.items():
+            if v and a not in r._ls_retransmit_counters:
+                bad.append(f"STRANDED: request(s) {[q.data[0] for q in v]} buffered for station {a.mid.mid[-1]} although no lookup is "
+                           f"in progress (no retransmit counter): never sent, never dropped")
         return bad
 
 
@@ -425,7 +519,7 @@ class Run:
 
 def classify(sc, bad):
     """known-finding id a violating run falls under (None = not a known region)"""
-    rx_other = any(op[0] in ("shbRx", "gbcRx") for th in sc["threads"] for op in th)
+    rx_other = any(op[0] in ("shbRx", "gbcRx") for th in all_threads(sc) for op in th)
     if all(b.startswith("buffered request") and "lost" in b for b in bad) and rx_other:
         return "C15-KF1"
     if all(b.startswith("DPL-RACE") or b.startswith("CBF packet") for b in bad) and any(b.startswith("DPL-RACE") for b in bad) \
@@ -443,11 +537,14 @@ def detect_variants(frames):
     sc2 = {"name": "probe2", "threads": [[["guc", 1, 1, 9], ["guc", 2, 2, 9]]], "timer_depth": 0}
     r2 = Run(sc2, dsched.Replay([]), frames)
     ls_fixed = len(r2.r._ls_packet_buffers.get(rs.gn_addr(9), [])) == 2     # 2nd request queued behind the lookup
+    sc3 = {"name": "probe3", "threads": [[["gbcRx", 1, 7]]], "timer_depth": 0, "probe_lock": True}
+    r3 = Run(sc3, dsched.Replay([]), frames)
+    locked = bool(r3.lock_held) and all(r3.lock_held)     # LocTE updated while loc_t_lock is held (fix C15-locte-update-under-lock)
     return {"loses_buffered_request": purges, "ls_order_fix": ls_fixed,
-            "cbf_discard": hasattr(router_mod.Router, "_cbf_discard")}
+            "cbf_discard": hasattr(router_mod.Router, "_cbf_discard"), "locte_locked": locked}
 
 
-VARIANT = {"cbf_discard": False, "ls_order_fix": True, "loses_buffered_request": False}
+VARIANT = {"cbf_discard": False, "ls_order_fix": True, "loses_buffered_request": False, "locte_locked": True}
 
 
 def model_line(sc):
@@ -456,24 +553,32 @@ def model_line(sc):
     depth = sc.get("timer_depth", 2)
     threads, extra = [], []
     nreq = {}
-    for th in sc["threads"]:
+    for th in all_threads(sc):
         for op in th:
             if op[0] == "guc":
                 nreq[op[3]] = nreq.get(op[3], 0) + 1
-    for th in sc["threads"]:
+    unl = "" if VARIANT["locte_locked"] else "U"
+
+    def tokens(th, depth):
+        """`depth` = how many generations of timer threads the harness starts for the timers of these operations"""
         toks = []
         for op in th:
             k = op[0]
             if k == "shbRx":
-                # a frame of a third station: its only modelled effect is refresh_table, which may drop LocT entries
+                # a frame of a third station: new_shb_packet (refresh_table, LocTE of the sender, refresh_table); for the
+                # location-service destinations the purge is over-approximated by an unconditional drop
                 toks += [f"purge:{d}" for d in scenario_dests(sc)]
-                continue
-            if k in ("sn", "shb", "gbc", "ego"):
+                toks.append(f"shbRx{unl}:{op[1]}:{op[2]}")
+            elif k in ("sn", "shb", "gbc", "ego"):
                 toks.append(f"{k}:{op[1]}")
-            elif k in ("cbfA", "gbcRx"):
-                kk = "gbcRxD" if (k == "gbcRx" and VARIANT["cbf_discard"]) else k
-                toks.append(f"{kk}:{op[1]}:{op[2]}")
-                extra.append([f"cbfF:{op[1] + 100}:{op[2]}:{op[1]}"])
+            elif k == "cbfA":
+                toks.append(f"cbfA:{op[1]}:{op[2]}")
+                if depth > 0:
+                    extra.append([f"cbfF:{op[1] + 100}:{op[2]}:{op[1]}"])
+            elif k == "gbcRx":
+                toks.append(f"gbcRx{unl}{'D' if VARIANT['cbf_discard'] else ''}:{op[1]}:{GBC_SRC}:{op[2]}")
+                if depth > 0:        # timer_depth 0: the harness starts no timer thread, the buffered packet stays buffered
+                    extra.append([f"cbfF:{op[1] + 100}:{op[2]}:{op[1]}"])
             elif k == "guc":
                 toks.append(f"{'guc' if VARIANT['ls_order_fix'] else 'gucOld'}:{op[1]}:{op[2]}:{op[3]}")
                 src = op[1]
@@ -487,8 +592,52 @@ def model_line(sc):
                     src = 1000 * (it + 1) + op[1]
                     for lvl in range(depth):
                         extra.append([f"lsF:{src + 100 * (lvl + 1)}:{op[2]}:{src if lvl == 0 else src + 100 * lvl}:{mr}"])
-        threads.append(toks)
-    return "explore " + " / ".join(" ".join(t) for t in threads + extra)
+            else:
+                raise Infra(f"unknown op {op}")
+        return toks
+
+    init = []
+    if sc.get("warm"):
+        init.append(f"warm:{GBC_SRC}:40")
+    if "sn0" in sc:
+        init.append(f"sn0:{sc['sn0']}")
+    if sc.get("pre"):
+        init += tokens(sc["pre"], 0)      # timers started before the scheduler runs never fire
+    for th in sc["threads"]:
+        threads.append(tokens(th, depth))
+    segs = ([["init"] + init] if init else []) + threads + extra
+    return "explore " + " / ".join(" ".join(t) for t in segs)
+
+
+STEP_WEIGHT = {"sn": 1, "shb": 2, "gbc": 3, "ego": 1, "cbfA": 2, "cbfF": 3, "purge": 1, "refresh": 1, "lsF": 7, "guc": 8, "gucOld": 8}
+
+
+def model_cost(line):
+    """rough number of program-counter vectors of the block model for a driver line: product over the threads of
+    (visible steps + 1).  The explorer memoises states but has no partial-order reduction; randomly composed scenarios
+    above the limit are judged by the oracle only."""
+    cost = 1
+    for seg in line[len("explore "):].split(" / "):
+        toks = seg.split()
+        if toks and toks[0] == "init":
+            continue
+        n = 0
+        for t in toks:
+            f = t.split(":")
+            k = f[0]
+            if k.startswith("gbcRx"):
+                n += 6
+            elif k.startswith("shbRx"):
+                n += 3
+            elif k.startswith("lsR"):
+                n += 4 + 9 * int(f[3])
+            else:
+                n += STEP_WEIGHT.get(k, 3)
+        cost *= n + 1
+    return cost
+
+
+MODEL_COST_LIMIT = 1500
 
 
 # ------------------------------------------------------------------------------------------------ scenarios
@@ -499,35 +648,58 @@ def scenarios(ctx):
     out = [
         {"name": "sn3", "threads": [[["sn", 1]], [["sn", 2]], [["sn", 3]]]},
         {"name": "gbc2", "threads": [[["gbc", 1]], [["gbc", 2]]]},
+        {"name": "gbc3-wrap", "threads": [[["gbc", 1]], [["gbc", 2]], [["gbc", 3]]], "sn0": 65533, "frac": 0.4},
         {"name": "ego-shb", "threads": [[["ego", 5]], [["shb", 1]], [["ego", 6]]]},
         {"name": "ego-gbc", "threads": [[["ego", 5], ["gbc", 2]], [["gbc", 1]]]},
         {"name": "cbf-cancel", "threads": [[["cbfA", 1, 7]], [["cbfA", 2, 7]]]},
         {"name": "cbf-2keys", "threads": [[["cbfA", 1, 7]], [["cbfA", 2, 8], ["ego", 4]]]},
         {"name": "gbc-rx", "threads": [[["gbcRx", 1, 7]], [["gbcRx", 2, 7]]], "warm": True},
-        {"name": "gbc-rx-fresh", "threads": [[["gbcRx", 1, 7]], [["gbcRx", 2, 7]]], "oracle_only": True},
+        # LocTE life cycle: concurrent receptions of the same frame from a source that has no LocTE yet (cold), with and
+        # without a frame of a third station whose refresh_table may purge (C15-KF2)
+        {"name": "gbc-rx-fresh", "threads": [[["gbcRx", 1, 7]], [["gbcRx", 2, 7]]]},
+        {"name": "gbc-rx-fresh3", "threads": [[["gbcRx", 1, 7]], [["gbcRx", 2, 7]], [["gbcRx", 3, 7]]], "timer_depth": 0,
+         "frac": 0.4},
+        {"name": "gbc-rx-purge", "threads": [[["gbcRx", 1, 7]], [["gbcRx", 2, 7]], [["shbRx", 3, 60]]], "timer_depth": 0,
+         "frac": 0.4},
+        {"name": "shb-rx2", "threads": [[["shbRx", 1, 60]], [["shbRx", 2, 60]]], "frac": 0.3},
         {"name": "ls-purge", "threads": [[["guc", 1, 1, 9]], [["shbRx", 2, 60]], [["guc", 3, 2, 9]]], "timer_depth": 0,
          "oracle_only_if_purging": True},
         {"name": "ls-2req", "threads": [[["guc", 1, 1, 9]], [["guc", 2, 2, 9]]], "timer_depth": 0},
         {"name": "ls-reply", "threads": [[["guc", 1, 1, 9]], [["lsR", 2, 9]]], "timer_depth": 1, "mr": 1},
+        # a second request issued while the reply to the first lookup is being handled (the lookup was started before the
+        # threads run): it must be sent, or queued behind a lookup that is really in progress
+        {"name": "ls-reply-race", "pre": [["guc", 1, 1, 9]], "threads": [[["lsR", 2, 9]], [["guc", 3, 2, 9]]], "timer_depth": 0,
+         "frac": 0.7},
     ]
     if ctx.thorough:
         out += [
             {"name": "ls-2req-reply", "threads": [[["guc", 1, 1, 9]], [["guc", 2, 2, 9]], [["lsR", 3, 9]]], "timer_depth": 0},
             {"name": "ls-giveup", "threads": [[["guc", 1, 1, 9]], [["lsR", 2, 9]]], "timer_depth": 2, "mr": 1},
             {"name": "mix4", "threads": [[["gbc", 1]], [["ego", 3], ["shb", 2]], [["cbfA", 3, 7]], [["cbfA", 4, 7]]]},
+            {"name": "gbc-rx-2sn-purge", "threads": [[["gbcRx", 1, 7], ["gbcRx", 2, 8]], [["gbcRx", 3, 7]], [["shbRx", 4, 60]]],
+             "timer_depth": 0},
+            {"name": "shb-rx3-purge", "threads": [[["shbRx", 1, 60]], [["shbRx", 2, 60]], [["shbRx", 3, 60]], [["shbRx", 4, 61]]]},
         ]
-    # a randomly composed one (2-3 threads, 1-2 ops)
-    pool = [["sn", 0], ["shb", 0], ["gbc", 0], ["ego", 0], ["cbfA", 0, 7]]
+    # a randomly composed one (2-3 threads, 1-2 ops; thorough: up to 4 threads x 3 ops) over the whole alphabet: origination,
+    # ego refresh, forwarder calls, receptions (GBC of the cold source, SHB of a third station), unicast requests, LS replies
+    pool = [["sn", 0], ["shb", 0], ["gbc", 0], ["ego", 0], ["cbfA", 0, 7], ["gbcRx", 0, 7], ["gbcRx", 0, 8], ["shbRx", 0, 60],
+            ["guc", 0, 0, 9], ["lsR", 0, 9]]
     ths, oid = [], 20
-    for _ in range(rng.choice([2, 3])):
+    for _ in range(rng.choice([2, 3, 4] if ctx.thorough else [2, 3])):
         ops = []
-        for _ in range(rng.choice([1, 2])):
+        for _ in range(rng.choice([1, 2, 3] if ctx.thorough else [1, 2])):
             op = list(rng.choice(pool))
             oid += 1
             op[1] = oid if op[0] != "ego" else rng.randrange(1, 9)
+            if op[0] == "guc":
+                op[2] = oid
             ops.append(op)
         ths.append(ops)
-    out.append({"name": "random", "threads": ths})
+    n_ls = sum(1 for th in ths for op in th if op[0] in ("guc", "lsR"))
+    n_lsr = sum(1 for th in ths for op in th if op[0] == "lsR")
+    if n_lsr > 3:                      # Frames prepares three replies per destination
+        ths = [[op for op in th if op[0] != "lsR"] or [["sn", 99]] for th in ths]
+    out.append({"name": "random", "threads": ths, "timer_depth": 1 if n_ls else 2})
     return out
 
 
@@ -619,7 +791,11 @@ def run(ctx):
     for sc in scenarios(ctx):
         observed = {}
         oracle_only = sc.get("oracle_only") or (sc.get("oracle_only_if_purging") and VARIANT["loses_buffered_request"])
-        explore(ctx, sc, frames, bound, cap, n_pct, observed, model=not oracle_only)
+        if sc["name"] == "random" and model_cost(model_line(sc)) > MODEL_COST_LIMIT:
+            oracle_only = True          # too many interleavings for the exhaustive model explorer
+            ctx.cover("random_scenario_oracle_only")
+        fr_ = sc.get("frac", 1.0) if not ctx.thorough else 1.0
+        explore(ctx, sc, frames, bound, max(int(cap * fr_), 20), max(int(n_pct * fr_), 8), observed, model=not oracle_only)
         if oracle_only:
             continue
         batches.append((sc, observed))
